@@ -652,7 +652,9 @@ def execute(trace: Dict[str, Any]) -> Dict[str, Any]:
     counters["mode_" + str(trace.get("mode"))] = 1
 
     for ei, ent in enumerate(trace["entries"]):
-        skip_empty = ent["ep"] == "text"
+        # candump does print empty frames ("can0  7E0   [0]" / "7E0#"); the reader does not recognise
+        # such lines and skips them with a warning, which is as good as ignoring the frame
+        skip_empty = False
         frames, segs, metas = split_frames(trace, skip_empty)
         rec_ranges: Dict[int, Tuple[List[int], bytes]] = {}
         for mid, payload in rec.items():
